@@ -106,8 +106,20 @@ static HUBCTR: std::sync::atomic::AtomicU64 = std::sync::atomic::AtomicU64::new(
 /// `setup` adds the actors. After `run()` returned (or panicked) the remaining actors are stepped
 /// until all are done so that clients can drain what the hub flushed before exiting.
 pub fn run_hub(world: &mut Box<World>, knobs: &HubKnobs, n_workers: usize, setup: impl FnOnce(&mut World, &HubEnv)) -> HubEnd {
+    run_hub_ex(world, knobs, n_workers, None, setup, |_| {})
+}
+
+/// How `run_hub_ex` obtains its hub: `None` = `CommandHub::new` plus `register_worker` (as `run_hub`);
+/// `Some(json)` = the hot-upgrade path of the main process: the JSON text of an `UpgradeData` (what
+/// `fork_main_into_new_main` writes into the upgrade file) is parsed as `begin_new_main_process` does and
+/// handed to `CommandHub::from_upgrade_data`. Descriptor numbers in the payload name descriptors of the old
+/// main process that the new one would have inherited; here they are replaced by fresh ones (a new listener
+/// on a new abstract name, one socket pair per worker listed as running), nothing else is touched.
+/// `post` runs after `run()` returned, before the hub is dropped (e.g. `generate_upgrade_data`).
+pub fn run_hub_ex(world: &mut Box<World>, knobs: &HubKnobs, n_workers: usize, upgrade_json: Option<&str>, setup: impl FnOnce(&mut World, &HubEnv), post: impl FnOnce(&mut CommandHub)) -> HubEnd {
     World::install(world);
     let mut end = HubEnd::default();
+    if let Some(json) = upgrade_json { return run_upgraded(world, json, end, setup, post); }
     let n = HUBCTR.fetch_add(1, std::sync::atomic::Ordering::SeqCst);
     // not "simk/...": the accept/getpeername hooks must treat this as a plain unix socket
     let sock_name = format!("hubsim/{}.{}", sys::getpid(), n).into_bytes();
@@ -160,6 +172,11 @@ pub fn run_hub(world: &mut Box<World>, knobs: &HubKnobs, n_workers: usize, setup
         let (directives, _) = sozu_command_lib::logging::parse_logging_spec("off");
         sozu_command_lib::logging::LOGGER.with(|l| l.borrow_mut().set_directives(directives));
     }
+    finish_hub(world, hub, end, scm_fds, post)
+}
+
+/// Common tail of `run_hub_ex`: logger, `run()`, `post`, drop, drain of the remaining actors.
+fn finish_hub(world: &mut Box<World>, mut hub: CommandHub, mut end: HubEnd, scm_fds: Vec<i32>, post: impl FnOnce(&mut CommandHub)) -> HubEnd {
     if end.boot_error.is_none() {
         let r = catch_unwind(AssertUnwindSafe(|| { hub.run(); }));
         match r {
@@ -173,6 +190,7 @@ pub fn run_hub(world: &mut Box<World>, knobs: &HubKnobs, n_workers: usize, setup
     end.t_return = world.now;
     world.tr(0x4E, end.returned as u64);
     world.board_set("hub_returned", 1);
+    if end.boot_error.is_none() && catch_unwind(AssertUnwindSafe(|| post(&mut hub))).is_err() && end.panicked.is_none() { end.panicked = Some("panic in the post-run hook".into()); }
     // the hub is gone: closes the listener, the epoll instance, every client and worker channel
     let dropped = catch_unwind(AssertUnwindSafe(move || drop(hub)));
     if dropped.is_err() && end.panicked.is_none() { end.panicked = Some("panic while dropping the hub".into()); }
@@ -185,6 +203,55 @@ pub fn run_hub(world: &mut Box<World>, knobs: &HubKnobs, n_workers: usize, setup
     world.stats.virtual_ns = world.now - 1000 * SEC;
     World::uninstall();
     end
+}
+
+fn quiet_logger() {
+    if let Ok(level) = std::env::var("SIMK_SOZU_LOG") {
+        let _ = sozu_command_lib::logging::setup_default_logging(false, &level, "HUB");
+    } else {
+        let (directives, _) = sozu_command_lib::logging::parse_logging_spec("off");
+        sozu_command_lib::logging::LOGGER.with(|l| l.borrow_mut().set_directives(directives));
+    }
+}
+
+/// The new main process of a hot upgrade (see `run_hub_ex`).
+fn run_upgraded(world: &mut Box<World>, json: &str, mut end: HubEnd, setup: impl FnOnce(&mut World, &HubEnv), post: impl FnOnce(&mut CommandHub)) -> HubEnd {
+    use sozu_command_lib::proto::command::RunState;
+    let fail = |mut end: HubEnd, e: String| { end.boot_error = Some(e); World::uninstall(); end };
+    let mut data: sozu::command::upgrade::UpgradeData = match serde_json::from_str(json) { Ok(d) => d, Err(e) => return fail(end, format!("upgrade data does not deserialize: {e}")) };
+    let n = HUBCTR.fetch_add(1, std::sync::atomic::Ordering::SeqCst);
+    let sock_name = format!("hubsim/{}.{}", sys::getpid(), n).into_bytes();
+    let listener = {
+        use std::os::linux::net::SocketAddrExt;
+        let addr = std::os::unix::net::SocketAddr::from_abstract_name(&sock_name).expect("abstract name");
+        UnixListener::bind_addr(&addr)
+    };
+    let listener = match listener { Ok(l) => l, Err(e) => return fail(end, format!("bind: {e}")) };
+    data.command_socket_fd = listener.into_raw_fd();
+    let (cbs, mcbs) = (data.config.command_buffer_size, data.config.max_command_buffer_size);
+    let _ = (cbs, mcbs);
+    let mut scm_fds = Vec::new();
+    let mut workers = Vec::new();
+    for ws in data.workers.iter_mut() {
+        // `from_upgrade_data` only adopts workers that are neither stopping nor stopped
+        if ws.run_state == RunState::Stopped || ws.run_state == RunState::Stopping { ws.channel_fd = -1; ws.scm_fd = -1; continue; }
+        let (cmd_main, cmd_worker) = UnixStream::pair().expect("pair");
+        let (scm_main, scm_worker) = UnixStream::pair().expect("pair");
+        ws.channel_fd = cmd_main.into_raw_fd();
+        ws.scm_fd = scm_main.into_raw_fd();
+        scm_fds.push(ws.scm_fd);
+        sys::close(scm_worker.into_raw_fd());
+        workers.push(WorkerEnd { id: ws.id, pid: ws.pid, fd: cmd_worker.into_raw_fd() });
+    }
+    let mut hub = match CommandHub::from_upgrade_data(data) {
+        Ok(h) => h,
+        Err(e) => { for w in &workers { sys::close(w.fd); } for fd in scm_fds { sys::close(fd); } return fail(end, format!("from_upgrade_data: {e}")); }
+    };
+    let env = HubEnv { sock_name, workers, force: ForceStop(&mut hub.server.run_state as *mut ServerState) };
+    setup(world, &env);
+    quiet_logger();
+    end.boot_error = None;
+    finish_hub(world, hub, end, scm_fds, post)
 }
 
 /// Step the remaining actors (with virtual time advancing) until all are done.
@@ -211,7 +278,7 @@ pub fn frame<M: Message>(m: &M) -> Vec<u8> {
 }
 
 /// Pops one complete frame off `buf`. Err = garbage length.
-fn pop_frame(buf: &mut Vec<u8>) -> Result<Option<Vec<u8>>, String> {
+pub fn pop_frame(buf: &mut Vec<u8>) -> Result<Option<Vec<u8>>, String> {
     if buf.len() < 8 { return Ok(None); }
     let len = u64::from_le_bytes(buf[..8].try_into().unwrap()) as usize;
     if len < 8 || len > 64 << 20 { return Err(format!("bad frame length {len}")); }
